@@ -5,6 +5,7 @@
 import Swiftness.Model.Fri
 import Swiftness.Proofs.Fold
 import Swiftness.Proofs.FeltField
+import Mathlib.Tactic.FieldSimp
 
 namespace Swiftness.Proofs
 open Swiftness Fri FoldSpec
@@ -130,15 +131,13 @@ theorem ofFn_eq_range_map {α : Type} (n : ℕ) (g : ℕ → α) :
     List.ofFn (fun j : Fin n => g j.val) = (List.range n).map g := by
   apply List.ext_getElem <;> simp
 
-/-- **Fold identity.** Folding the values of `P` on the coset `x·friGroup[0..2^k)` with challenge `b`
-    yields `2^k · Σ_j b^j · P_j(x^(2^k))`. -/
-theorem fold_identity (k : ℕ) (hk1 : 1 ≤ k) (hk4 : k ≤ 4) (cs : List Felt) (x xinv b : Felt)
+/-- **Fold identity** (values given as `List.map` over `List.range`). -/
+theorem fold_identity_range (k : ℕ) (hk1 : 1 ≤ k) (hk4 : k ≤ 4) (cs : List Felt) (x xinv b : Felt)
     (hx : x * xinv = 1) :
-    friFormula (List.ofFn (fun j : Fin (2 ^ k) => evalL cs (x * friGroup.getD j.val 0))) b xinv
+    friFormula ((List.range (2 ^ k)).map (fun j => evalL cs (x * friGroup.getD j 0))) b xinv
         ((2 ^ k : ℕ) : Felt)
       = .ok (((2 ^ k : ℕ) : Felt)
           * ∑ j ∈ Finset.range (2 ^ k), b ^ j * evalL (split k cs j) (x ^ 2 ^ k)) := by
-  rw [ofFn_eq_range_map (2 ^ k) (fun j => evalL cs (x * friGroup.getD j 0))]
   rw [friFormula_eq_foldRec k hk1 hk4 _ _ _ (by simp)]
   have hmap : (List.range (2 ^ k)).map (fun j => evalL cs (x * friGroup.getD j 0))
       = (List.range (2 ^ k)).map (fun j => evalL cs (x * cosetW wi k j)) := by
@@ -148,5 +147,23 @@ theorem fold_identity (k : ℕ) (hk1 : 1 ≤ k) (hk4 : k ≤ 4) (cs : List Felt)
   rw [hmap, foldRec_spec om wi 4 om_pow wi_mul_om cs b k hk4 x xinv hx]
   push_cast
   rfl
+
+/-- **Fold identity.** Folding the values of `P` on the coset `x·friGroup[0..2^k)` with challenge `b`
+    yields `2^k · Σ_j b^j · P_j(x^(2^k))`. -/
+theorem fold_identity (k : ℕ) (hk1 : 1 ≤ k) (hk4 : k ≤ 4) (cs : List Felt) (x xinv b : Felt)
+    (hx : x * xinv = 1) :
+    friFormula (List.ofFn (fun j : Fin (2 ^ k) => evalL cs (x * friGroup.getD j.val 0))) b xinv
+        ((2 ^ k : ℕ) : Felt)
+      = .ok (((2 ^ k : ℕ) : Felt)
+          * ∑ j ∈ Finset.range (2 ^ k), b ^ j * evalL (split k cs j) (x ^ 2 ^ k)) := by
+  rw [ofFn_eq_range_map (2 ^ k) (fun j => evalL cs (x * friGroup.getD j 0))]
+  exact fold_identity_range k hk1 hk4 cs x xinv b hx
+
+/-- If the query at offset `i` of a coset has x-inverse `(x·friGroup[i])⁻¹`, then `cosetLoop`'s
+    `coset_x_inv = q.x_inv · friGroup[i]` is `x⁻¹`, the x-inverse of the first element of the coset. -/
+theorem coset_xinv_consistent (x : Felt) (hx : x ≠ 0) (i : ℕ) (hi : i < 16) :
+    (x * friGroup.getD i 0)⁻¹ * friGroup.getD i 0 = x⁻¹ := by
+  have hg := friGroup_ne_zero i hi
+  field_simp
 
 end Swiftness.Proofs
